@@ -390,6 +390,15 @@ StopRestart ==
   /\ out' = <<>> /\ cb' = <<>> /\ exc' = "none"
   /\ UNCHANGED issued
 
+\* stop() of a gateway object that is started again afterwards (possible for the asyncio MQTT gateway, whose transport
+\* survives stop()): the final save as in StopRestart; everything in memory stays, firmware sessions included.  The next
+\* start_persistence() loads the file over it (StartPersist).
+StopSame ==
+  /\ disk' = (IF pers /\ dirty THEN SavedNow(nodes) ELSE disk) /\ dirty' = FALSE
+  /\ pers' = FALSE
+  /\ out' = <<>> /\ cb' = <<>> /\ exc' = "none"
+  /\ UNCHANGED <<nodes, ota, jobs, metric, issued>>
+
 Init ==
   /\ nodes = EmptyFn
   /\ ota = [fw |-> {}, sess |-> EmptyFn]
